@@ -48,7 +48,7 @@ var c02Kinds = []string{
 	"C-other", "C-other", "z-other", "z-other", "y-other", "y-other",
 	"swap", "dup", "drop",
 	"label",
-	"shape-L", "shape-R", "shape-LR", "zero-openings", "len-ys", "len-zs",
+	"shape-L", "shape-R", "shape-LR", "zero-openings", "len-ys", "len-zs", "len-ys-longer", "len-zs-longer", "len-cs-longer",
 	"repr", "repr",
 	"noise", "identity-proof",
 	// an uninitialised (all-zero, Z=0) element is not a group element: a proof or statement
@@ -113,6 +113,7 @@ type message struct {
 	L, R   []refmodel.Point
 	A      *big.Int
 	dropYs, dropZs int // shape faults on the statement: ys/zs shortened by this many entries
+	extraYs, extraZs, extraCs int // ... or lengthened
 	zeroField      int  // object form: index of the proof element replaced by the zero value (0=D, 1..8=L, 9..16=R), -1 none
 	zeroC          int  // index of the commitment replaced by the zero value, -1 none
 	zeroA          bool // final scalar forced to 0 as well
@@ -144,6 +145,9 @@ func (m *message) clone() *message {
 // identical: value-identical as (label, openings, proof).
 func identical(a, b *message) bool {
 	if a.label != b.label || len(a.Cs) != len(b.Cs) || len(a.zs) != len(b.zs) || len(a.ys) != len(b.ys) || a.shaped != b.shaped {
+		return false
+	}
+	if a.extraYs != b.extraYs || a.extraZs != b.extraZs || a.extraCs != b.extraCs {
 		return false
 	}
 	if a.dropYs != b.dropYs || a.dropZs != b.dropZs || a.zeroField != b.zeroField || a.zeroC != b.zeroC || a.zeroA != b.zeroA {
@@ -286,6 +290,12 @@ func (c02) Exec(plan interface{}) Result {
 		d.dropYs = 1
 	case "len-zs":
 		d.dropZs = 1
+	case "len-ys-longer":
+		d.extraYs = 1
+	case "len-zs-longer":
+		d.extraZs = 1
+	case "len-cs-longer":
+		d.extraCs = 1
 	case "repr":
 		for i := range d.reprs {
 			d.reprs[i] = Repr(r.Intn(int(NumReprs)))
@@ -360,7 +370,7 @@ func (c02) Exec(plan interface{}) Result {
 	}
 	same := identical(sent, d)
 	zeroFault := d.zeroField >= 0 || d.zeroC >= 0
-	shapeFault := (d.shaped && !zeroFault) || d.dropYs > 0 || d.dropZs > 0 || len(d.Cs) == 0
+	shapeFault := (d.shaped && !zeroFault) || d.dropYs > 0 || d.dropZs > 0 || len(d.Cs) == 0 || d.extraYs+d.extraZs+d.extraCs > 0
 
 	// ---- reference verdict on the delivered message
 	refOK := false
@@ -379,7 +389,17 @@ func (c02) Exec(plan interface{}) Result {
 	if parseOK {
 		rys := d.ys[:len(d.ys)-minInt(d.dropYs, len(d.ys))]
 		rzs := d.zs[:len(d.zs)-minInt(d.dropZs, len(d.zs))]
-		refOK, refErr = refmodel.MultiVerify(refmodel.NewTranscript(d.label), rproof, d.Cs, rys, rzs)
+		rcs := d.Cs
+		for k := 0; k < d.extraYs; k++ {
+			rys = append(append([]*big.Int{}, rys...), rys[0])
+		}
+		for k := 0; k < d.extraZs; k++ {
+			rzs = append(append([]uint8{}, rzs...), rzs[0])
+		}
+		for k := 0; k < d.extraCs; k++ {
+			rcs = append(append([]refmodel.Point{}, rcs...), rcs[0])
+		}
+		refOK, refErr = refmodel.MultiVerify(refmodel.NewTranscript(d.label), rproof, rcs, rys, rzs)
 	}
 
 	// ---- the library's verdict, verifier node under the scheduler
@@ -395,6 +415,27 @@ func (c02) Exec(plan interface{}) Result {
 		ys = append(ys, &e)
 	}
 	zs := append([]uint8{}, d.zs[:len(d.zs)-minInt(d.dropZs, len(d.zs))]...)
+	for k := 0; k < d.extraYs && len(ys) > 0; k++ {
+		ys = append(ys, ys[0])
+	}
+	for k := 0; k < d.extraZs && len(zs) > 0; k++ {
+		zs = append(zs, zs[0])
+	}
+	for k := 0; k < d.extraCs && len(Cs) > 0; k++ {
+		Cs = append(Cs, Cs[0])
+	}
+	// the verifier's caller may hand over ONE object for equal commitments
+	if f.Bit >= 4 {
+		for i := range Cs {
+			for j := 0; j < i; j++ {
+				if i < len(d.Cs) && j < len(d.Cs) && d.Cs[i].Equal(d.Cs[j]) && d.reprs[i] == d.reprs[j] {
+					Cs[i] = Cs[j]
+					break
+				}
+			}
+		}
+		res.note("verifier-shares-commitment-pointers")
+	}
 	var vo verifyOut
 	var out SimOut
 	if d.shaped {
